@@ -87,9 +87,46 @@ impl Deck {
     }
 }
 
-/// C11: whole tapes played from start to the automatic stop, random step partition
+/// how elapsed time is cut into process_clocks calls (the statement quantifies over all partitions
+/// into steps of 1..16; 0-length calls are harmless extras)
+#[derive(Clone, Copy)]
+enum StepPol {
+    Uniform,
+    Const(u64),
+    Big,
+    MostlyMax,
+    Machine,
+}
+
+impl StepPol {
+    fn of(i: u64) -> StepPol {
+        match i % 8 {
+            0 | 4 => StepPol::Uniform,
+            1 => StepPol::Const(16),
+            2 => StepPol::Big,
+            3 => StepPol::Const(1 + (i / 8) % 16),
+            5 => StepPol::MostlyMax,
+            6 => StepPol::Machine,
+            _ => StepPol::Const(12 + (i / 8) % 5),
+        }
+    }
+    fn next(self, r: &mut Rng) -> u64 {
+        match self {
+            StepPol::Uniform => r.below(17),
+            StepPol::Const(k) => k,
+            StepPol::Big => 12 + r.below(5),
+            StepPol::MostlyMax => if r.chance(1, 8) { 1 + r.below(16) } else { 16 },
+            // what the machine issues: 3/4-T cycles plus contention, never more than 8
+            StepPol::Machine => [1, 3, 4, 4, 3, 7, 8, 5, 2, 6][r.below(10) as usize],
+        }
+    }
+}
+
+/// C11: whole tapes played from start to the automatic stop, under every step policy in turn
 fn waveform(out: &mut Out, r: &mut Rng, tapes: u64) {
-    for _ in 0..tapes {
+    let off = r.below(8);
+    for ti in 0..tapes {
+        let pol = StepPol::of(ti + off + 8 * r.below(16));
         let blocks = random_tape(r, 3, true);
         out.ev(json!({"ev":"tape","blocks":blocks}));
         let mut d = Deck::new(&blocks);
@@ -97,7 +134,7 @@ fn waveform(out: &mut Out, r: &mut Rng, tapes: u64) {
         d.tap.play();
         let mut guard = 0u64;
         while !d.stopped() {
-            let c = r.below(17) as usize;
+            let c = pol.next(r) as usize;
             d.adv(c, out);
             guard += 1;
             assert!(guard < 200_000_000, "tape never ends");
